@@ -1,0 +1,27 @@
+//go:build verif
+
+package app
+
+import (
+	"fmt"
+
+	"cosmossdk.io/x/tx/signing"
+	"google.golang.org/protobuf/proto"
+	"google.golang.org/protobuf/reflect/protoreflect"
+)
+
+// verifCustomGetSigners (build tag verif only) registers a signer extractor for
+// ethermint.evm.v1.MsgEthereumTx, whose signer field `from` is of type bytes and is
+// therefore not understood by the stock cosmossdk.io/x/tx signing context. Without it
+// the tx decoder rejects every EVM transaction offered through ABCI.
+func verifCustomGetSigners() map[protoreflect.FullName]signing.GetSignersFunc {
+	return map[protoreflect.FullName]signing.GetSignersFunc{
+		"ethermint.evm.v1.MsgEthereumTx": func(msg proto.Message) ([][]byte, error) {
+			fd := msg.ProtoReflect().Descriptor().Fields().ByName("from")
+			if fd == nil {
+				return nil, fmt.Errorf("field from not found")
+			}
+			return [][]byte{msg.ProtoReflect().Get(fd).Bytes()}, nil
+		},
+	}
+}
